@@ -5,7 +5,7 @@
    verdict matters, as an arbitrary function `accept` of the group: the theorems hold for EVERY such function, hence for
    all pattern pairs and all group names.  The real regexps are exercised by the probes of checks/c10*.py on every run. *)
 From Coq Require Import ZArith List Bool.
-From Burrow Require Import Int64 Wire WireProofs ZkReader ZkReaderProofs Notifier NotifierProofs.
+From Burrow Require Import Int64 Wire WireProofs WireRoundtripProofs ZkReader ZkReaderProofs Notifier NotifierProofs.
 From Burrow Require Import Eval AMap Ring Storage StorageDelProofs.   (* last: unqualified names are the storage model's *)
 Import ListNotations.
 Open Scope Z_scope.
@@ -22,6 +22,20 @@ Theorem C10_accept_spec_notifier : forall a_set a_match d_set d_match,
   Notifier.lists_accept (Notifier.mkRx a_set a_match d_set d_match) = (negb a_set || a_match) && negb (d_set && d_match).
 Proof. exact lists_accept_spec. Qed.
 Print Assumptions C10_accept_spec_notifier.
+
+Theorem C10_accept_spec_reader : forall a_set a_m d_set d_m,
+  Wire.reader_accept a_set a_m d_set d_m = true <->
+  (a_set = true -> a_m = true) /\ ~ (d_set = true /\ d_m = true).
+Proof. exact reader_accept_spec. Qed.
+Print Assumptions C10_accept_spec_reader.
+
+(* the reader with real lists: for arbitrary match functions of the two patterns, every forwarded request is for a group that
+   matches the allowlist if one is set and does not match the denylist if one is set *)
+Theorem C10_reader_lists_enforced : forall a_set d_set (am dm : list Z -> bool) key value o rs al,
+  Wire.process_message (fun g => Wire.reader_accept a_set (am g) d_set (dm g)) key value o = Wire.Done rs al ->
+  Forall (fun r => (a_set = true -> am (Wire.req_group r) = true) /\ ~ (d_set = true /\ dm (Wire.req_group r) = true)) rs.
+Proof. exact reader_lists_enforced. Qed.
+Print Assumptions C10_reader_lists_enforced.
 
 (* ---- storage: a rejected group never enters storage or its listings, on any of the three ingestion paths ---- *)
 Theorem C10_storage_rejected_noop :
